@@ -3,8 +3,11 @@ package main
 import (
 	"context"
 	"fmt"
+	"sort"
 	"strconv"
+	"strings"
 	"sync"
+	"time"
 
 	orbitdb "berty.tech/go-orbit-db"
 	"berty.tech/go-orbit-db/iface"
@@ -197,6 +200,651 @@ func runC19(r *Run) error {
 		_ = replicator.Events
 		s.Settle()
 		s.Close()
+	}
+	sim.TheHooks.Extra = nil
+	return runC19Conc(r)
+}
+
+// ---------------------------------------------------------------------------------------
+// Interleaved recalculations (schedules).
+//
+// recalculateReplicationMax / recalculateReplicationProgress are read-modify-write
+// sequences; the schedule points store.recalc_{max,progress}_enter (before the first read)
+// and store.recalc_{max,progress}_read (after the last read, before the Set) together with
+// the store.recalc report (after the Set) bracket the read and the write of every primitive
+// recalculation.  The controller below logs these events in one global order, can park ONE
+// goroutine at a *_read point, and afterwards derives from the log
+//   - the model threads (one per recalculation call: RMax a / RStatus a / RProgress),
+//   - the schedule (LRead i at the read point, LWrite i at the report, LGrow d where a
+//     read or a sample observed a longer log),
+//   - whether that schedule is EXACT: the read interval (enter, read) and the write interval
+//     (read or release-from-park, report) of different recalculations must not overlap, and
+//     the log length must be the same at enter and at read.  Everything the driver forces is
+//     ordered by causality (a goroutine is parked, the other one is started afterwards and
+//     observed to finish before the release), never by timing; whatever could not be
+//     ordered that way makes the case inexact: then only the property is checked on the
+//     samples, not the correspondence with the model.
+// With a mutex held across a recalculation (the repaired code) the parked goroutine holds
+// it: the second recalculation cannot even reach its enter point until the release, the
+// events of different recalculations never interleave and every case is exact.
+// ---------------------------------------------------------------------------------------
+
+type c19Ev struct {
+	goid  uint64
+	kind  string // max_enter max_read progress_enter progress_read report release
+	ln    int    // log length of the watched store, measured on the reporting goroutine
+	ptr   string // report: store pointer
+	isMax bool
+	arg   int
+}
+
+type c19Park struct {
+	point   string
+	goid    uint64
+	used    bool
+	arrived chan struct{}
+	release chan struct{}
+}
+
+type c19Sample struct {
+	pos                int // log position at which it was taken
+	p, m, ln, maxt     int
+	rest, stable, init bool
+}
+
+type c19Ctl struct {
+	mu      sync.Mutex
+	log     []c19Ev
+	id      string // store id (address) the points carry
+	store   iface.Store
+	park    *c19Park
+	samples []c19Sample
+}
+
+func (c *c19Ctl) watch(st iface.Store) {
+	c.mu.Lock()
+	c.store = st
+	c.mu.Unlock()
+}
+
+func (c *c19Ctl) hook(name string, keys []string) {
+	switch name {
+	case "store.recalc_max_enter", "store.recalc_max_read", "store.recalc_progress_enter", "store.recalc_progress_read":
+		if len(keys) < 1 || keys[0] != c.id {
+			return
+		}
+		c.mu.Lock()
+		st := c.store
+		c.mu.Unlock()
+		ln := -1
+		if st != nil {
+			ln = st.OpLog().Len()
+		}
+		ev := c19Ev{goid: c17Goid(), kind: strings.TrimPrefix(name, "store.recalc_"), ln: ln}
+		c.mu.Lock()
+		c.log = append(c.log, ev)
+		var pk *c19Park
+		if c.park != nil && !c.park.used && c.park.point == name {
+			pk = c.park
+			pk.used = true
+			pk.goid = ev.goid
+		}
+		c.mu.Unlock()
+		if pk != nil {
+			close(pk.arrived)
+			<-pk.release
+		}
+	case "store.recalc":
+		if len(keys) < 6 {
+			return
+		}
+		a, _ := strconv.Atoi(keys[2])
+		ev := c19Ev{goid: c17Goid(), kind: "report", ptr: keys[0], isMax: keys[1] == "max", arg: a}
+		c.mu.Lock()
+		c.log = append(c.log, ev)
+		c.mu.Unlock()
+	}
+}
+
+// arm parks the first goroutine that reaches the point from now on.
+func (c *c19Ctl) arm(point string) *c19Park {
+	pk := &c19Park{point: point, arrived: make(chan struct{}), release: make(chan struct{})}
+	c.mu.Lock()
+	c.park = pk
+	c.mu.Unlock()
+	return pk
+}
+
+func (c *c19Ctl) releasePark(pk *c19Park) {
+	c.mu.Lock()
+	if pk.used {
+		c.log = append(c.log, c19Ev{goid: pk.goid, kind: "release"})
+	} else {
+		pk.used = true // disarm
+	}
+	c.mu.Unlock()
+	select {
+	case <-pk.release:
+	default:
+		close(pk.release)
+	}
+}
+
+func (c *c19Ctl) pos() int {
+	c.mu.Lock()
+	defer c.mu.Unlock()
+	return len(c.log)
+}
+
+// announcedSince counts completed maximum recalculations with argument arg by goroutines
+// other than `not`, logged from pos on.
+func (c *c19Ctl) announcedSince(pos int, not uint64, arg int) int {
+	c.mu.Lock()
+	defer c.mu.Unlock()
+	n := 0
+	for _, e := range c.log[pos:] {
+		if e.kind == "report" && e.goid != not && e.isMax && e.arg == arg {
+			n++
+		}
+	}
+	return n
+}
+
+func (c *c19Ctl) sample(rest bool) {
+	c.mu.Lock()
+	st := c.store
+	p1 := len(c.log)
+	c.mu.Unlock()
+	rs := st.ReplicationStatus()
+	sm := c19Sample{pos: p1, p: rs.GetProgress(), m: rs.GetMax(), ln: st.OpLog().Len(), rest: rest}
+	if rest {
+		sm.maxt = maxTime(st)
+	}
+	c.mu.Lock()
+	sm.stable = len(c.log) == p1
+	sm.init = len(c.samples) == 0
+	c.samples = append(c.samples, sm)
+	c.mu.Unlock()
+}
+
+type c19Op struct {
+	goid                 uint64
+	isMax                bool
+	arg                  int
+	e, rd, rel, w        int // log positions (rel = -1: never parked)
+	lnE, lnR             int
+	ptr                  string
+	thread               int
+	complete, haveR, bad bool
+}
+
+// derive turns the event log into a CConc case.  ok=false: the log could not be interpreted
+// at all (a recalculation that never finished): no case is produced.
+func (c *c19Ctl) derive(ptr string) (term string, info map[string]interface{}, ok bool) {
+	c.mu.Lock()
+	log := append([]c19Ev(nil), c.log...)
+	samples := append([]c19Sample(nil), c.samples...)
+	c.mu.Unlock()
+	exact := true
+	why := ""
+	inexact := func(s string) {
+		if exact {
+			why = s
+		}
+		exact = false
+	}
+	cur := map[uint64]*c19Op{}
+	var ops []*c19Op
+	foreign := 0
+	for i, ev := range log {
+		switch ev.kind {
+		case "max_enter", "progress_enter":
+			if o := cur[ev.goid]; o != nil {
+				return "", nil, false
+			}
+			cur[ev.goid] = &c19Op{goid: ev.goid, isMax: ev.kind == "max_enter", e: i, lnE: ev.ln, rel: -1}
+		case "max_read", "progress_read":
+			o := cur[ev.goid]
+			if o == nil || o.haveR || o.isMax != (ev.kind == "max_read") {
+				return "", nil, false
+			}
+			o.rd, o.lnR, o.haveR = i, ev.ln, true
+		case "release":
+			if o := cur[ev.goid]; o != nil && o.haveR {
+				o.rel = i
+			}
+		case "report":
+			o := cur[ev.goid]
+			if o == nil || !o.haveR || o.isMax != ev.isMax {
+				return "", nil, false
+			}
+			o.w, o.arg, o.ptr, o.complete = i, ev.arg, ev.ptr, true
+			delete(cur, ev.goid)
+			if o.ptr == ptr {
+				ops = append(ops, o)
+			} else {
+				foreign++
+			}
+		}
+	}
+	if len(cur) != 0 || len(samples) < 2 || !samples[0].init || samples[0].pos != 0 {
+		return "", nil, false
+	}
+	sort.Slice(ops, func(a, b int) bool { return ops[a].e < ops[b].e })
+	// threads: a max recalculation directly followed, on the same goroutine, by a progress
+	// recalculation is one recalculateReplicationStatus call
+	var progs []string
+	lastOf := map[uint64]*c19Op{}
+	for _, o := range ops {
+		prev := lastOf[o.goid]
+		if !o.isMax && prev != nil && prev.isMax && !prev.bad {
+			o.thread = prev.thread
+			progs[o.thread] = "(RStatus " + sim.CoqZ(prev.arg) + ")"
+			prev.bad = true // consumed
+		} else {
+			o.thread = len(progs)
+			if o.isMax {
+				progs = append(progs, "(RMax "+sim.CoqZ(o.arg)+")")
+			} else {
+				progs = append(progs, "RProgress")
+			}
+		}
+		lastOf[o.goid] = o
+	}
+	// exactness: conflicting intervals of different recalculations must be disjoint
+	overlap := func(a1, a2, b1, b2 int) bool { return a1 < b2 && b1 < a2 }
+	for i, x := range ops {
+		if x.lnE != x.lnR {
+			inexact("log grew during a read")
+		}
+		xs := x.rd
+		if x.rel > xs {
+			xs = x.rel
+		}
+		for j, y := range ops {
+			if i == j {
+				continue
+			}
+			ys := y.rd
+			if y.rel > ys {
+				ys = y.rel
+			}
+			if overlap(x.e, x.rd, ys, y.w) {
+				inexact("a read overlaps a write of another recalculation")
+			}
+			if i < j && overlap(xs, x.w, ys, y.w) {
+				inexact("two writes overlap")
+			}
+		}
+	}
+	// labels in log order
+	type lab struct {
+		pos  int
+		term string
+		ln   int // reads: length observed
+	}
+	var labs []lab
+	for _, o := range ops {
+		labs = append(labs, lab{o.rd, "LRead " + sim.CoqNat(o.thread), o.lnR}, lab{o.w, "LWrite " + sim.CoqNat(o.thread), -1})
+	}
+	sort.Slice(labs, func(a, b int) bool { return labs[a].pos < labs[b].pos })
+	sampleExact := func(sm c19Sample) bool {
+		if !sm.stable {
+			return false
+		}
+		for _, o := range ops {
+			done := o.w < sm.pos
+			notYet := o.e >= sm.pos
+			parked := o.rel != -1 && o.rd < sm.pos && o.rel >= sm.pos
+			if !done && !notYet && !parked {
+				return false
+			}
+		}
+		return true
+	}
+	curLen := samples[0].ln
+	li := 0
+	var chunks []string
+	var pending []string
+	var all []string
+	for k, sm := range samples {
+		all = append(all, fmt.Sprintf("(mkSm %s %s %s %s %s)", sim.CoqZ(sm.p), sim.CoqZ(sm.m), sim.CoqZ(sm.ln), sim.CoqZ(sm.maxt), sim.CoqBool(sm.rest)))
+		if k == 0 {
+			continue
+		}
+		for li < len(labs) && labs[li].pos < sm.pos {
+			if labs[li].ln >= 0 {
+				if labs[li].ln > curLen {
+					pending = append(pending, "LGrow "+sim.CoqZ(labs[li].ln-curLen))
+					curLen = labs[li].ln
+				} else if labs[li].ln < curLen {
+					inexact("a read saw a shorter log than an earlier one")
+				}
+			}
+			pending = append(pending, labs[li].term)
+			li++
+		}
+		last := k == len(samples)-1
+		if !sampleExact(sm) {
+			if last {
+				inexact("final sample taken while a recalculation was in flight")
+			} else {
+				continue // keep the labels for the next exact sample
+			}
+		}
+		if sm.ln > curLen {
+			pending = append(pending, "LGrow "+sim.CoqZ(sm.ln-curLen))
+			curLen = sm.ln
+		} else if sm.ln < curLen {
+			inexact("a sample saw a shorter log than an earlier read")
+		}
+		chunks = append(chunks, fmt.Sprintf("(%s, (%s, %s, %s))", sim.CoqList(pending), sim.CoqZ(sm.p), sim.CoqZ(sm.m), sim.CoqZ(sm.ln)))
+		pending = nil
+	}
+	if li < len(labs) {
+		inexact("recalculations after the final sample")
+	}
+	s0 := samples[0]
+	term = fmt.Sprintf("(CConc (%s, %s) %s %s %s %s %s)", sim.CoqZ(s0.p), sim.CoqZ(s0.m), sim.CoqZ(s0.ln),
+		sim.CoqList(progs), sim.CoqList(chunks), sim.CoqBool(exact), sim.CoqList(all))
+	// the observed parking structure, for the case description
+	inter := false
+	for i, x := range ops {
+		for j, y := range ops {
+			if i != j && x.rd < y.rd && y.w < x.w {
+				inter = true
+			}
+		}
+	}
+	info = map[string]interface{}{"threads": len(progs), "ops": len(ops), "exact": exact, "inexact_why": why,
+		"foreign_ops": foreign, "interleaved": inter, "samples": len(samples)}
+	return term, info, true
+}
+
+// c19Plan is one forced / randomised interleaving scenario.
+type c19Plan struct {
+	name   string
+	base   string // multi | single-writer | single-load
+	typ    string
+	park   string // store.recalc_max_read | store.recalc_progress_read | "" (free run)
+	b      string // announce | replicate | announce+replicate (what runs while A is parked)
+	n0, n1 int
+}
+
+const c19BWait = 300 * time.Millisecond
+
+func c19WaitUntil(d time.Duration, f func() bool) bool {
+	deadline := time.Now().Add(d)
+	for {
+		if f() {
+			return true
+		}
+		if time.Now().After(deadline) {
+			return false
+		}
+		time.Sleep(2 * time.Millisecond)
+	}
+}
+
+func runC19Plan(r *Run, pl c19Plan, idx int) error {
+	ctx := context.Background()
+	var opts *ScenOpts
+	switch pl.base {
+	case "single-writer":
+		opts = &ScenOpts{Writers: []int{0}}
+	case "single-load":
+		opts = &ScenOpts{Writers: []int{1}}
+	}
+	s, err := NewScen(2, pl.typ, opts)
+	if err != nil {
+		return err
+	}
+	defer func() {
+		sim.TheHooks.Extra = nil
+		sim.TheHooks.Reset()
+		s.Settle()
+		s.Close()
+	}()
+	reopen := func(load bool) error {
+		if err := s.Stores[0].Close(); err != nil {
+			return err
+		}
+		st2, err := s.Reps[0].Orbit.Open(ctx, s.Addr, &orbitdb.CreateDBOptions{})
+		if err != nil {
+			return fmt.Errorf("reopen: %w", err)
+		}
+		s.Stores[0] = st2
+		if load {
+			if err := st2.Load(ctx, -1); err != nil {
+				return err
+			}
+		}
+		return nil
+	}
+	// ---- preparation (no controller yet): replica 1 ends up holding a longer log
+	switch pl.base {
+	case "multi":
+		for k := 0; k < pl.n1; k++ {
+			if err := writeOp(r, s, s.Stores[1], k); err != nil {
+				return err
+			}
+		}
+		for k := 0; k < pl.n0; k++ {
+			if err := writeOp(r, s, s.Stores[0], 100+k); err != nil {
+				return err
+			}
+		}
+	case "single-writer":
+		// replica 0 is the only writer; replica 1 holds a copy; replica 0 is then reopened
+		// without loading, so that its own log is announced to it as a longer remote log
+		for k := 0; k < pl.n1; k++ {
+			if err := writeOp(r, s, s.Stores[0], k); err != nil {
+				return err
+			}
+		}
+		if err := s.SyncFrom(1, 0); err != nil {
+			return err
+		}
+		if !s.Settle() {
+			return fmt.Errorf("c19 plan: preparation did not settle")
+		}
+		if err := reopen(false); err != nil {
+			return err
+		}
+		for k := 0; k < pl.n0; k++ {
+			if err := writeOp(r, s, s.Stores[0], 100+k); err != nil {
+				return err
+			}
+		}
+	case "single-load":
+		// replica 1 is the only writer; replica 0 has replicated n0 entries, is closed and
+		// reopened; its Load from disk runs against the announcement of n1 more entries
+		for k := 0; k < pl.n0; k++ {
+			if err := writeOp(r, s, s.Stores[1], k); err != nil {
+				return err
+			}
+		}
+		if err := s.SyncFrom(0, 1); err != nil {
+			return err
+		}
+		if !s.Settle() {
+			return fmt.Errorf("c19 plan: preparation did not settle")
+		}
+		for k := 0; k < pl.n1; k++ {
+			if err := writeOp(r, s, s.Stores[1], 100+k); err != nil {
+				return err
+			}
+		}
+		if err := reopen(false); err != nil {
+			return err
+		}
+	}
+	if !s.Settle() {
+		return fmt.Errorf("c19 plan: preparation did not settle")
+	}
+	// ---- the window
+	st := s.Stores[0]
+	ctl := &c19Ctl{id: st.Address().String()}
+	ctl.watch(st)
+	sim.TheHooks.Extra = ctl.hook
+	ptr := fmt.Sprintf("%p", st)
+	ctl.sample(false)
+	var workers *sim.Gate
+	if pl.b != "replicate" {
+		workers = sim.TheHooks.Park("replicator.before_slot", "", 0)
+	}
+	var pk *c19Park
+	if pl.park != "" {
+		pk = ctl.arm(pl.park)
+	}
+	aDone := make(chan error, 1)
+	go func() {
+		defer func() {
+			if p := recover(); p != nil {
+				aDone <- fmt.Errorf("panic: %v", p)
+			}
+		}()
+		if pl.base == "single-load" {
+			aDone <- st.Load(ctx, -1)
+		} else {
+			aDone <- writeOp(r, s, st, 200)
+		}
+	}()
+	aFinished := false
+	var aErr error
+	if pk != nil {
+		select {
+		case <-pk.arrived:
+		case aErr = <-aDone:
+			aFinished = true // the point was never reached (e.g. nothing to load)
+		case <-time.After(20 * time.Second):
+			ctl.releasePark(pk)
+			return fmt.Errorf("c19 plan %s: thread A never reached %s", pl.name, pl.park)
+		}
+		ctl.sample(false)
+	}
+	// thread B: the announcement of replica 1's heads (and, unless the fetch workers are
+	// held, the whole replication), started only now
+	before := ctl.pos()
+	endsBefore := sim.TheHooks.Count("store.load_end_done")
+	var aGoid uint64
+	if pk != nil {
+		aGoid = pk.goid
+	}
+	headTime := 0
+	for _, h := range s.Stores[1].OpLog().Heads().Slice() {
+		if t := h.GetClock().GetTime(); t > headTime {
+			headTime = t
+		}
+	}
+	if err := s.SyncFrom(0, 1); err != nil {
+		return err
+	}
+	bSeen := func() bool {
+		if pl.b == "replicate" {
+			return sim.TheHooks.Count("store.load_end_done") > endsBefore
+		}
+		return ctl.announcedSince(before, aGoid, headTime) > 0
+	}
+	bRan := c19WaitUntil(c19BWait, bSeen)
+	if bRan && pl.b == "announce+replicate" {
+		// let the fetch and the merge run as well while A is still parked
+		workers.Release()
+		workers = nil
+		c19WaitUntil(c19BWait, func() bool { return sim.TheHooks.Count("store.load_end_done") > endsBefore })
+	}
+	ctl.sample(false)
+	if pk != nil {
+		ctl.releasePark(pk)
+	}
+	if !aFinished {
+		select {
+		case aErr = <-aDone:
+		case <-time.After(20 * time.Second):
+			return fmt.Errorf("c19 plan %s: thread A did not finish", pl.name)
+		}
+	}
+	if aErr != nil {
+		return fmt.Errorf("c19 plan %s: thread A: %w", pl.name, aErr)
+	}
+	ctl.sample(false)
+	if workers != nil {
+		workers.Release()
+	}
+	if !s.Settle() {
+		r.AddDirect("hang:sync", "replication did not settle", map[string]interface{}{"plan": pl.name, "state": sim.LastSettleState})
+		return nil
+	}
+	ctl.sample(true)
+	sim.TheHooks.Extra = nil
+	term, info, ok := ctl.derive(ptr)
+	if !ok {
+		r.Count("conc:uninterpretable")
+		return nil
+	}
+	info["kind"] = "conc"
+	info["sig"] = "conc:" + pl.name
+	info["plan"] = pl.name
+	info["base"] = pl.base
+	info["store"] = pl.typ
+	info["park"] = pl.park
+	info["b"] = pl.b
+	info["n0"], info["n1"] = pl.n0, pl.n1
+	info["b_ran_while_parked"] = bRan
+	info["idx"] = idx
+	r.AddCase(term, info, true)
+	r.Count("conc")
+	r.Count("conc:" + pl.base)
+	if info["exact"].(bool) {
+		r.Count("conc:exact")
+	} else {
+		r.Count("conc:inexact")
+	}
+	if info["interleaved"].(bool) {
+		r.Count("conc:interleaved")
+	} else {
+		r.Count("conc:serialised")
+	}
+	return nil
+}
+
+// runC19Conc: forced interleavings (writer || announcement, writer || merge, progress || merge,
+// load || announcement; single- and multi-writer logs) and randomised ones.
+func runC19Conc(r *Run) error {
+	const mx, pg = "store.recalc_max_read", "store.recalc_progress_read"
+	plans := []c19Plan{
+		{"writer-max||announcement", "multi", "eventlog", mx, "announce", 2, 6},
+		{"writer-max||merge", "multi", "keyvalue", mx, "replicate", 1, 5},
+		{"writer-progress||merge", "multi", "eventlog", pg, "replicate", 2, 7},
+		{"writer-max||announcement+merge", "multi", "keyvalue", mx, "announce+replicate", 3, 5},
+		{"writer-max||announcement(single-writer)", "single-writer", "eventlog", mx, "announce", 0, 6},
+		{"writer-progress||merge(single-writer)", "single-writer", "keyvalue", pg, "replicate", 1, 5},
+		{"load-max||announcement(single-writer)", "single-load", "eventlog", mx, "announce", 3, 4},
+		{"load-progress||merge(single-writer)", "single-load", "keyvalue", pg, "replicate", 2, 5},
+	}
+	nrand := 6
+	if r.Tier == "thorough" {
+		nrand = 60
+	}
+	for k := 0; k < nrand; k++ {
+		pl := c19Plan{
+			base: []string{"multi", "multi", "single-writer", "single-load"}[r.Rng.Intn(4)],
+			typ:  []string{"eventlog", "keyvalue"}[r.Rng.Intn(2)],
+			park: []string{mx, pg, mx, pg, ""}[r.Rng.Intn(5)],
+			b:    []string{"announce", "replicate", "announce+replicate"}[r.Rng.Intn(3)],
+			n0:   r.Rng.Intn(4),
+			n1:   2 + r.Rng.Intn(7),
+		}
+		if pl.base == "single-load" && pl.n0 == 0 {
+			pl.n0 = 1
+		}
+		pl.name = fmt.Sprintf("random(%s,%s,%s)", pl.base, strings.TrimPrefix(pl.park, "store.recalc_"), pl.b)
+		plans = append(plans, pl)
+	}
+	for i, pl := range plans {
+		if err := runC19Plan(r, pl, i); err != nil {
+			return err
+		}
 	}
 	return nil
 }
